@@ -841,9 +841,11 @@ def c12(tr, cx):
             prev = cur
         tr.count('C12.overtime_entries', len(overtime))
         if None in exp: tr.v('C12', 'on_duty_server_disappeared', (nid,)); continue
-        got = [float(x) for x in overtime]
+        got = sorted(float(x) for x in overtime)
+        exp = sorted(exp)   # several servers can leave within one event; the order inside an event is not specified
         if len(got) != len(exp) or any(abs(a - b) > 1e-9 for a, b in zip(got, exp)):
-            tr.v('C12', 'overtime_list', (nid, got[:8], exp[:8]))
+            bad = [(a, b) for a, b in zip(got, exp) if abs(a - b) > 1e-9][:4]
+            tr.v('C12', 'overtime_list', (nid, len(got), len(exp), bad))
     # slotted nodes
     for nid0, ndspec in enumerate(spec['nodes']):
         nid = nid0 + 1
@@ -1020,34 +1022,39 @@ def c17(tr, cx):
         if [x[1] for x in dedup] != [x[1] for x in h] or any(float(a[0]) != float(b[0]) for a, b in zip(dedup, h)):
             tr.v('C17', 'history_differs_from_expected_sequence', ([(float(a), b) for a, b in h[:5]], [(float(a), b) for a, b in dedup[:5]]))
     r = random.Random(spec['seed'])
+    exact = bool(spec['exact'])
+    num = (lambda x: Decimal(str(x))) if exact else float
     tend = float(tr.snaps[-1]['t'])
     if tend <= 0 or len(h) < 3: return
     for wi in range(6):
         a = r.uniform(0, tend * 0.6); b = r.uniform(a + 0.01, tend)
+        a, b = num(round(a, 6)), num(round(b, 6))
         mode = wi % 3
         if mode == 1:  # endpoints that coincide with history timestamps
-            ts = [float(x[0]) for x in h]
+            ts = [x[0] for x in h]
             a = r.choice(ts[:-1]); later = [x for x in ts if x > a]
             if not later: continue
             b = r.choice(later)
+            a, b = num(a), num(b)
         elif mode == 2 and spec['lattice']:
-            a = float(math.floor(a)); b = max(a + 1, float(math.floor(b)))
+            a = num(math.floor(a)); b = max(a + 1, num(math.floor(b)))
+        if float(b) - float(a) < 1e-6: continue   # degenerate window (precision of the arithmetic, not of the tracker)
         try:
             got = cx['state_probabilities']((a, b))
         except Exception as ex:
-            tr.v('C17', 'state_probabilities_raised', (a, b, repr(ex))); continue
+            tr.v('C17', 'state_probabilities_raised', (str(a), str(b), repr(ex))); continue
         tr.count('C17.probability_windows')
-        exp = collections.defaultdict(float)
-        for (t0, st), (t1, _) in zip(h, h[1:] + [[INF, None]]):
-            lo = max(float(t0), a); hi = min(float(t1), b)
+        exp = collections.defaultdict(lambda: num(0))
+        for (t0, st), (t1, _) in zip(h, h[1:] + [[None, None]]):
+            lo = max(num(t0), a); hi = b if t1 is None else min(num(t1), b)
             if hi > lo: exp[st] += hi - lo
         tot = sum(exp.values())
         if tot <= 0: continue
-        exp = {k_: v / tot for k_, v in exp.items()}
-        if abs(sum(float(x) for x in got.values()) - 1) > 1e-9: tr.v('C17', 'probs_not_sum_1', (a, b))
+        exp = {k_: float(v / tot) for k_, v in exp.items()}
+        if abs(sum(float(x) for x in got.values()) - 1) > 1e-9: tr.v('C17', 'probs_not_sum_1', (str(a), str(b)))
         keys = set(exp) | set(k_ for k_, v in got.items() if float(v) > 1e-12)
         if any(abs(float(got.get(k_, 0)) - exp.get(k_, 0)) > 1e-7 for k_ in keys):
-            tr.v('C17', 'state_probabilities_wrong', (a, b, dict(list(got.items())[:4]), dict(list(exp.items())[:4])))
+            tr.v('C17', 'state_probabilities_wrong', (str(a), str(b), dict(list(got.items())[:4]), dict(list(exp.items())[:4])))
 
 
 ORACLES = {'C01': c01, 'C02': c02, 'C03': c03, 'C04': c04, 'C05': c05, 'C06': c06, 'C07': c07, 'C08': c08,
